@@ -282,6 +282,8 @@ def drive(entry, m, bufs, ins, outs, irep=0, orep=0, rec=None, tail=0):
             problems.append("accounting")
             uin = max(0, min(uin, avail)); uout = max(0, min(uout, g))
         ip += uin; op += uout
+        if ret > lz.SEEK_NEEDED or ret < 0:
+            problems.append("internal:%d" % ret)
         if rec is not None:
             rec.append({"e": "Call", "action": lz.ACT[action], "ain": avail, "aout": g, "ret": lz.retname(ret),
                         "uin": uin, "uout": uout, "tin": s.total_in, "tout": s.total_out})
@@ -442,7 +444,7 @@ def run_subject(sub, budget):
                 if bad:
                     res["mism"].append(dict(what=bad, plan=p, obs=o, one=one))
                 res["traces"].append(dict(plan=p, events=rec2, final=o2, bad=True))
-            elif want_rec:
+            elif want_rec and len(rec) <= 400:
                 budget[0] -= len(rec) + 2
                 res["traces"].append(dict(plan=p, events=rec, final=o, bad=False))
     return res
